@@ -19,4 +19,10 @@ def build(run):
     outputfunc.verify_outputfunc(run)
     outputfunc.verify_outputfunc_stop(run)      # stop_data delivered as the last action of an output block
     outputasync.verify_stop_start(run)
+    # 'nothing outlives the simulation': the output tasks an OutputAsync creates are finished (awaited, or cancelled and awaited) when its
+    # control task ends -- the three control strategies and the wrapper they start (contracts shared with C12)
+    outputasync.verify_wrapper(run)
+    outputasync.verify_ctrl_wait(run)
+    outputasync.verify_ctrl_start(run)
+    outputasync.verify_ctrl_cancel(run)
     run.replayer('Circuit._run_tasks/raises:cancelled_while_waiting/post2', lambda run_, ob, model: open('/verif/specs/replay_c08a.py').read())
